@@ -510,8 +510,12 @@ def subj_kde(b, kind, pattern):
     # set of another size (weights given normalised, as the constructor would leave them)
     n2 = rng.randint(12, 30)
     D2 = {"kind": "gauss", "shape": [n2, d], "seed": _seed(rng)}
-    alts = [{"descriptors": b.ref(D2, "descriptors"), "weights": b.ref(b.w(n2, "normalized"), "weights")},
-            {"descriptors": b.ref(D2, "descriptors"), "weights": b.ref(b.w(n2, "normalized"), "weights")},
+    # (the grid of the following fit is then taken from the NEW descriptors: a grid unrelated to
+    # the descriptors is outside every statement - the localisation search of the unchanged
+    # tree does not terminate on it)
+    g2 = {"X": b.ref({"kind": "rows", "base": _strip(D2), "idx": sorted(rng.sample(range(n2), rng.randint(4, 7)))}, "grid")}
+    alts = [{"descriptors": b.ref(D2, "descriptors"), "weights": b.ref(b.w(n2, "normalized"), "weights"), "__fit__": g2},
+            {"descriptors": b.ref(D2, "descriptors"), "weights": b.ref(b.w(n2, "normalized"), "weights"), "__fit__": g2},
             ]
     if "fpoints" in p:
         # (with fspread > 0 the constructor itself overwrites fpoints: set_params and a fresh
@@ -627,15 +631,17 @@ def gen_class_trace(b, kind, pattern):
             ops.extend(_reads_ops("e0", s, s["fitA"], b)[:2])  # populate lazy caches
         if rng.random() < 0.1:
             ops.append({"op": "RESTART", "obj": "e0"})
+        fit2 = s["fitB"]
         if s.get("alts") and rng.random() < 0.3:
             # the caller re-parameterises the fitted estimator before fitting it again
             patch = dict(rng.choice(s["alts"]))
             if rng.random() < 0.25 and len(s["alts"]) > 1:
                 patch.update(rng.choice(s["alts"]))
+            fit2 = patch.pop("__fit__", fit2)  # data that goes with the new parameters
             ops.append({"op": "SET", "obj": "e0", "params": patch, "how": "setattr" if rng.random() < 0.2 else "set_params"})
-        ops.append({"op": "FIT", "obj": "e0", "args": s["fitB"], "env": b.env(kind, s["params"], allow)})
-        ops.extend(_reads_ops("e0", s, s["fitB"], b))
-        if rng.random() < 0.25:
+        ops.append({"op": "FIT", "obj": "e0", "args": fit2, "env": b.env(kind, s["params"], allow)})
+        ops.extend(_reads_ops("e0", s, fit2, b))
+        if rng.random() < 0.25 and fit2 is s["fitB"]:
             # three-step history: back to A
             ops.append({"op": "FIT", "obj": "e0", "args": s["fitA"], "env": b.env(kind, s["params"], allow)})
     elif pattern == "single":
